@@ -12,6 +12,7 @@ import (
 	"strconv"
 	"strings"
 	"sync"
+	"time"
 
 	shell_operator "github.com/flant/shell-operator/pkg/shell-operator"
 	"github.com/flant/shell-operator/pkg/utils/string_helper"
@@ -30,8 +31,17 @@ binding=$(jq -r '.[0].binding' "$BINDING_CONTEXT_PATH")
 uid=$(jq -r '.[0].review.request.uid' "$BINDING_CONTEXT_PATH")
 idx=$(grep -nxF -- "$binding" "$ctl/$me.names" | head -1 | cut -d: -f1)
 echo "$me ${idx:-0} $uid" >> "$ctl/log"
-if [[ -f "$ctl/$me.$idx.resp" ]]; then cat "$ctl/$me.$idx.resp" > "$VALIDATING_RESPONSE_PATH"; fi
-exit "$(cat "$ctl/$me.$idx.exit" 2>/dev/null || echo 3)"
+# what to do: per request (ctl/uid.<uid>.*) if scripted, else per binding (ctl/<hook>.<index>.*)
+base="$ctl/$me.$idx"
+if [[ -f "$ctl/uid.$uid.exit" ]]; then base="$ctl/uid.$uid"; fi
+wait_for() { local i; for ((i = 0; i < 1500; i++)); do [[ -e "$1" ]] && return 0; sleep 0.02; done; return 1; }
+# overlapping requests: the harness scripts the order of "writes its files" and "exits" with marker files
+if [[ -f "$base.gate" ]]; then : > "$ctl/sync/$uid.started"; wait_for "$ctl/sync/$uid.write"; fi
+if [[ -f "$base.resp" ]]; then cat "$base.resp" > "$VALIDATING_RESPONSE_PATH"; fi
+if [[ -f "$base.metrics" ]]; then cat "$base.metrics" > "$METRICS_PATH"; fi
+if [[ -f "$base.kpatch" ]]; then cat "$base.kpatch" > "$KUBERNETES_PATCH_PATH"; fi
+if [[ -f "$base.gate" ]]; then : > "$ctl/sync/$uid.wrote"; wait_for "$ctl/sync/$uid.go"; fi
+exit "$(cat "$base.exit" 2>/dev/null || echo 3)"
 `
 
 var c14HookOnce sync.Once
@@ -65,6 +75,46 @@ type c14Outcome struct {
 	Warns   []string
 	Patch   string // decoded patch text
 	Content string // response file content ("" = leave empty)
+	// the other output files of the run: "" none; "ok.mv" a valid metric operation; "bad.ms" metrics file
+	// that is not JSON; "bad.mo" a metric operation that does not validate; "bad.po" an unknown object
+	// patch operation; "bad.pg" an object patch file that is neither JSON nor YAML
+	Side string
+}
+
+func (o c14Outcome) sideFiles() (metrics, kpatch string) {
+	switch o.Side {
+	case "ok.mv":
+		metrics = `{"name":"c14_checked","action":"set","value":1}` + "\n"
+	case "bad.ms":
+		metrics = `{"name": "c14_checked", "action":` + "\n"
+	case "bad.mo":
+		metrics = `{"name":"c14_checked","action":"set"}` + "\n"
+	case "bad.po":
+		kpatch = `{"operation":"NoSuchOperation","kind":"Pod","name":"x"}` + "\n"
+	case "bad.pg":
+		kpatch = "{{{ this is: [neither JSON nor: YAML\n"
+	}
+	return
+}
+
+var c14Sides = []string{"ok.mv", "bad.ms", "bad.mo", "bad.po", "bad.pg"}
+
+// write the files that tell the hook script what to do (base = ctl/<hook>.<index> or ctl/uid.<uid>)
+func (o c14Outcome) writeCtl(base string, gate bool) {
+	_ = os.WriteFile(base+".exit", []byte(strconv.Itoa(o.Exit)), 0o644)
+	if o.Kind != "e" {
+		_ = os.WriteFile(base+".resp", []byte(o.Content), 0o644)
+	}
+	m, k := o.sideFiles()
+	if m != "" {
+		_ = os.WriteFile(base+".metrics", []byte(m), 0o644)
+	}
+	if k != "" {
+		_ = os.WriteFile(base+".kpatch", []byte(k), 0o644)
+	}
+	if gate {
+		_ = os.WriteFile(base+".gate", nil, 0o644)
+	}
 }
 
 func (o c14Outcome) token() string {
@@ -95,10 +145,23 @@ func (o c14Outcome) token() string {
 		}
 		file = strings.Join(parts, ";")
 	}
+	if o.Side != "" {
+		return fmt.Sprintf("%d+%s:%s", o.Exit, o.Side, file)
+	}
 	return fmt.Sprintf("%d:%s", o.Exit, file)
 }
 
 func (o c14Outcome) allowed() bool { return o.Kind == "a" || o.Kind == "u" }
+
+// c14GenOutcomeSide: an outcome whose run also leaves metric / object patch operation files behind
+// in about a quarter of the cases (most of them not applicable: the hook task fails after a clean exit).
+func c14GenOutcomeSide(rng *Rng, tag string) c14Outcome {
+	o := c14GenOutcome(rng, tag)
+	if rng.Chance(25) {
+		o.Side = PickOne(rng, c14Sides)
+	}
+	return o
+}
 
 func c14GenOutcome(rng *Rng, tag string) c14Outcome {
 	o := c14Outcome{}
@@ -163,6 +226,30 @@ type c14Req struct {
 	Path string
 	Body string // ok | garbage | norequest
 	UID  string
+	Out  *c14Outcome // what the hook does for this request (nil: what it does for the binding)
+}
+
+// one step of a case: a single request, or several overlapping requests whose hook runs are
+// interleaved as Sched says: "s<i>" request i is sent (its run is prepared, its hook process starts),
+// "w<i>" its hook writes its output files, "x<i>" its hook exits and the request is answered.
+type c14Step struct {
+	Reqs  []c14Req
+	Sched []string
+}
+
+// c14RandSched: a random interleaving of s<i> < w<i> < x<i> for n requests
+func c14RandSched(rng *Rng, n int) []string {
+	next := make([]int, n)
+	var out []string
+	for len(out) < 3*n {
+		i := rng.Intn(n)
+		if next[i] >= 3 {
+			continue
+		}
+		out = append(out, fmt.Sprintf("%c%d", "swx"[next[i]], i+1))
+		next[i]++
+	}
+	return out
 }
 
 var c14ValidatingNames = []string{"a.example.com", "b.example.com", "my.hook.ex.io", "my-hook.ex.io", "x.y.z", "deny.all.io"}
@@ -173,10 +260,19 @@ func c14RegisteredPath(name string) string { return "/hooks/" + string_helper.Sa
 
 // c14RunCase builds the operator over generated hooks and sends the requests through the real chain.
 func c14RunCase(r *Run, c *Case, hooks []c14Hook, reqs []c14Req) {
+	steps := make([]c14Step, len(reqs))
+	for i, q := range reqs {
+		steps[i] = c14Step{Reqs: []c14Req{q}}
+	}
+	c14RunSteps(r, c, hooks, steps)
+}
+
+func c14RunSteps(r *Run, c *Case, hooks []c14Hook, steps []c14Step) {
 	shared := c14SharedHook(r)
 	root := filepath.Join(r.Scratch, fmt.Sprintf("c14-%d", c.Idx))
 	hooksDir, ctl, tmp := filepath.Join(root, "hooks"), filepath.Join(root, "ctl"), filepath.Join(root, "tmp")
-	for _, d := range []string{hooksDir, ctl, tmp} {
+	syncDir := filepath.Join(ctl, "sync")
+	for _, d := range []string{hooksDir, ctl, tmp, syncDir} {
 		_ = os.MkdirAll(d, 0o755)
 	}
 	defer os.RemoveAll(root)
@@ -211,11 +307,7 @@ func c14RunCase(r *Run, c *Case, hooks []c14Hook, reqs []c14Req) {
 		_ = os.WriteFile(filepath.Join(ctl, f+".cfg"), []byte(cfg), 0o644)
 		_ = os.WriteFile(filepath.Join(ctl, f+".names"), []byte(strings.Join(names, "\n")+"\n"), 0o644)
 		for i, n := range names {
-			o := h.Out[n]
-			_ = os.WriteFile(filepath.Join(ctl, fmt.Sprintf("%s.%d.exit", f, i+1)), []byte(strconv.Itoa(o.Exit)), 0o644)
-			if o.Kind != "e" {
-				_ = os.WriteFile(filepath.Join(ctl, fmt.Sprintf("%s.%d.resp", f, i+1)), []byte(o.Content), 0o644)
-			}
+			h.Out[n].writeCtl(filepath.Join(ctl, fmt.Sprintf("%s.%d", f, i+1)), false)
 		}
 		if err := os.Link(shared, filepath.Join(hooksDir, f)); err != nil {
 			c.Inconcl = "cannot link the hook script: " + err.Error()
@@ -262,8 +354,7 @@ func c14RunCase(r *Run, c *Case, hooks []c14Hook, reqs []c14Req) {
 		return -1, "?"
 	}
 
-	for _, q := range reqs {
-		_ = os.WriteFile(filepath.Join(ctl, "log"), nil, 0o644)
+	send := func(q c14Req) *httptest.ResponseRecorder {
 		var body string
 		switch q.Body {
 		case "ok":
@@ -279,28 +370,42 @@ func c14RunCase(r *Run, c *Case, hooks []c14Hook, reqs []c14Req) {
 		req.Header.Set("Content-Type", "application/json")
 		rec := httptest.NewRecorder()
 		handler.Router.ServeHTTP(rec, req)
+		return rec
+	}
 
+	// the op line and the oracle line of one answered request; logLines = what the hook processes
+	// logged during the step, stepUIDs = the uids of the step's requests
+	report := func(q c14Req, rec *httptest.ResponseRecorder, logLines []string, stepUIDs map[string]bool) {
 		// who ran
 		ran := "-"
-		logB, _ := os.ReadFile(filepath.Join(ctl, "log"))
-		lines := strings.Split(strings.TrimSpace(string(logB)), "\n")
-		if len(lines) == 1 && lines[0] != "" {
-			f := strings.Fields(lines[0])
-			if len(f) >= 2 {
-				idx, _ := strconv.Atoi(f[1])
-				hid, name := nameOf(f[0], idx)
-				ran = fmt.Sprintf("%d:%s", hid, c14Enc(name))
-				if len(f) < 3 || f[2] != q.UID {
-					ran = "another-request-was-handed-to-the-hook"
-				}
+		var mine []string
+		foreign := 0
+		for _, l := range logLines {
+			f := strings.Fields(l)
+			if len(f) >= 3 && f[2] == q.UID {
+				mine = append(mine, l)
+			} else if len(f) < 3 || !stepUIDs[f[2]] {
+				foreign++
 			}
-		} else if len(lines) > 1 {
+		}
+		switch {
+		case len(mine)+foreign > 1 && (len(mine) > 1 || foreign > 0):
 			ran = "several-hooks-ran"
+		case len(mine) == 1:
+			f := strings.Fields(mine[0])
+			idx, _ := strconv.Atoi(f[1])
+			hid, name := nameOf(f[0], idx)
+			ran = fmt.Sprintf("%d:%s", hid, c14Enc(name))
+		case foreign == 1:
+			ran = "another-request-was-handed-to-the-hook"
 		}
 
 		line := fmt.Sprintf("path=%s body=%s uid=%s", c14Enc(q.Path), q.Body, c14Enc(q.UID))
 		var ans, oans string
-		if rec.Code == http.StatusBadRequest {
+		if rec == nil {
+			ans = "hang"
+			oans = "ans=hang"
+		} else if rec.Code == http.StatusBadRequest {
 			ans = "400 ran=" + ran
 			oans = "ans=400 ran=" + ran
 		} else if rec.Code != http.StatusOK {
@@ -373,6 +478,117 @@ func c14RunCase(r *Run, c *Case, hooks []c14Hook, reqs []c14Req) {
 			c.Nontrivial = true
 		}
 	}
+
+	exists := func(p string) bool { _, err := os.Stat(p); return err == nil }
+	touch := func(p string) { _ = os.WriteFile(p, nil, 0o644) }
+	const waitMax = 20 * time.Second
+
+	for _, st := range steps {
+		_ = os.WriteFile(filepath.Join(ctl, "log"), nil, 0o644)
+		uids := map[string]bool{}
+		for _, q := range st.Reqs {
+			uids[q.UID] = true
+			if q.Out != nil {
+				q.Out.writeCtl(filepath.Join(ctl, "uid."+q.UID), len(st.Sched) > 0)
+				c.Op(fmt.Sprintf("reqout %s %s", c14Enc(q.UID), q.Out.token()), "ok")
+				c.Note("outcome:file=" + q.Out.Kind)
+				if q.Out.Side != "" {
+					c.Note("outcome:others=" + q.Out.Side)
+				}
+			}
+		}
+		recs := make([]*httptest.ResponseRecorder, len(st.Reqs))
+		if len(st.Sched) == 0 {
+			for i, q := range st.Reqs {
+				recs[i] = send(q)
+			}
+		} else {
+			// overlapping requests, interleaved as scripted
+			done := make([]chan *httptest.ResponseRecorder, len(st.Reqs))
+			hookRuns := make([]bool, len(st.Reqs))
+			// waits until the marker exists or request i is answered; "" = timeout
+			await := func(i int, marker string) string {
+				deadline := time.Now().Add(waitMax)
+				for time.Now().Before(deadline) {
+					if marker != "" && exists(marker) {
+						return "marker"
+					}
+					if recs[i] == nil {
+						select {
+						case recs[i] = <-done[i]:
+						default:
+						}
+					}
+					if recs[i] != nil {
+						return "answered"
+					}
+					time.Sleep(2 * time.Millisecond)
+				}
+				return ""
+			}
+			stuck := ""
+			for _, ev := range st.Sched {
+				i, _ := strconv.Atoi(ev[1:])
+				i--
+				q := st.Reqs[i]
+				sy := filepath.Join(syncDir, q.UID)
+				switch ev[0] {
+				case 's':
+					done[i] = make(chan *httptest.ResponseRecorder, 1)
+					go func(q c14Req, ch chan *httptest.ResponseRecorder) { ch <- send(q) }(q, done[i])
+					switch await(i, sy+".started") {
+					case "marker":
+						hookRuns[i] = true
+						c.Op(fmt.Sprintf("ov start %s path=%s", c14Enc(q.UID), c14Enc(q.Path)), "started")
+					case "answered":
+						c.Op(fmt.Sprintf("ov start %s path=%s", c14Enc(q.UID), c14Enc(q.Path)), "answered")
+					default:
+						stuck = ev
+					}
+				case 'w':
+					touch(sy + ".write")
+					if hookRuns[i] && await(i, sy+".wrote") == "" {
+						stuck = ev
+					}
+					c.Op("ov write "+c14Enc(q.UID), "ok")
+				case 'x':
+					touch(sy + ".go")
+					if await(i, "") == "" {
+						stuck = ev
+					}
+					c.Op("ov exit "+c14Enc(q.UID), "ok")
+				}
+				if stuck != "" {
+					break
+				}
+			}
+			if stuck != "" {
+				// release everything and let the runs end; the case cannot be decided
+				for _, q := range st.Reqs {
+					touch(filepath.Join(syncDir, q.UID+".write"))
+					touch(filepath.Join(syncDir, q.UID+".go"))
+				}
+				for i := range st.Reqs {
+					if done[i] != nil {
+						await(i, "")
+					}
+				}
+				c.Inconcl = "the scripted interleaving got stuck at " + stuck + " (a marker file did not appear in time)"
+				return
+			}
+			c.Note(fmt.Sprintf("overlap:requests=%d", len(st.Reqs)))
+		}
+		logB, _ := os.ReadFile(filepath.Join(ctl, "log"))
+		var logLines []string
+		for _, l := range strings.Split(strings.TrimSpace(string(logB)), "\n") {
+			if l != "" {
+				logLines = append(logLines, l)
+			}
+		}
+		for i, q := range st.Reqs {
+			report(q, recs[i], logLines, uids)
+		}
+	}
 }
 
 func c14Differential(c *Case, names []string, paths []string) {
@@ -418,7 +634,7 @@ func c14Variant(rng *Rng, p string) string {
 }
 
 func runC14(r *Run) {
-	r.Rule = "1-3 hooks with 1-3 validating/mutating bindings each (fully qualified names for validating; arbitrary names for mutating: upper case, blanks, slashes, empty path segments, non-ASCII; names whose SafeURL forms collide within and across hooks), a scripted outcome per (hook, binding): exit code x response file (empty, not JSON, truncated, wrong types, bad base64, JSON followed by garbage, two documents, {}, null, unknown fields, allowed/denied with message/warnings/base64 JSONPatch); 3-6 requests per case: registered paths and variants (trailing/double slashes, upper case, other configuration id, prefix/suffix changes, unknown, /, /hooks), bodies valid / garbage / without request. Everything runs through the real chain: chi router of the admission WebhookHandler (httptest) -> the event closure of initValidatingWebhookManager -> HookManager routing -> taskHandler -> Hook.Run -> bash -> response file -> AdmissionReview. Plus differential lines for SafeURLString and detectConfigurationAndWebhook on random strings. A case is non-trivial when a hook process ran; distinct = distinct op-line sequences."
+	r.Rule = "1-3 hooks with 1-3 validating/mutating bindings each (fully qualified names for validating; arbitrary names for mutating: upper case, blanks, slashes, empty path segments, non-ASCII; names whose SafeURL forms collide within and across hooks), a scripted outcome per (hook, binding): exit code x response file (empty, not JSON, truncated, wrong types, bad base64, JSON followed by garbage, two documents, {}, null, unknown fields, allowed/denied with message/warnings/base64 JSONPatch); 3-6 requests per case: registered paths and variants (trailing/double slashes, upper case, other configuration id, prefix/suffix changes, unknown, /, /hooks), bodies valid / garbage / without request. A run may also leave metric / object patch operation files behind (a valid metric operation; a metrics file that is not JSON; a metric operation that does not validate; an unknown object patch operation; an unparsable object patch file) — all but the first make the hook task fail after a clean exit. Overlap cases: 2-3 requests in flight at the same time (mostly to the same hook and binding, each with its own scripted outcome), the order of \"run prepared / hook writes its files / hook exits\" over all of them chosen at random and forced with marker files. Everything runs through the real chain: chi router of the admission WebhookHandler (httptest) -> the event closure of initValidatingWebhookManager -> HookManager routing -> taskHandler -> Hook.Run -> bash -> response file -> AdmissionReview. Plus differential lines for SafeURLString and detectConfigurationAndWebhook on random strings. A case is non-trivial when a hook process ran; distinct = distinct op-line sequences."
 	c14SharedHook(r)
 
 	// ---- corpus
@@ -426,7 +642,7 @@ func runC14(r *Run) {
 		c.Desc = "corpus: a valid verdict followed by garbage in the response file"
 		h := c14Hook{ID: 1, Bindings: []c14Binding{{"v", "a.example.com"}}, Out: map[string]c14Outcome{
 			"a.example.com": {Kind: "z", Content: "{\"allowed\": true}\ngarbage"}}}
-		c14RunCase(r, c, []c14Hook{h}, []c14Req{{"/hooks/a-example-com", "ok", "uid-1"}})
+		c14RunCase(r, c, []c14Hook{h}, []c14Req{{"/hooks/a-example-com", "ok", "uid-1", nil}})
 	})
 	r.One(1, func(c *Case, _ *Rng) {
 		c.Desc = "corpus: allowed with warnings and patch; denied with message; hook exits 1; empty file; unknown path"
@@ -439,8 +655,8 @@ func runC14(r *Run) {
 			"b.example.com": {Exit: 1, Kind: "a", Content: `{"allowed":true}`},
 			"x.y.z":         {Kind: "e"}}}
 		c14RunCase(r, c, []c14Hook{h1, h2}, []c14Req{
-			{"/hooks/my-hook", "ok", "u1"}, {"/hooks/a-example-com", "ok", "u2"}, {"/hooks/b-example-com", "ok", "u3"},
-			{"/hooks/x-y-z", "ok", "u4"}, {"/hooks/nope", "ok", "u5"}, {"/hooks/my-hook", "garbage", "u6"}, {"/hooks/my-hook", "norequest", "u7"}})
+			{"/hooks/my-hook", "ok", "u1", nil}, {"/hooks/a-example-com", "ok", "u2", nil}, {"/hooks/b-example-com", "ok", "u3", nil},
+			{"/hooks/x-y-z", "ok", "u4", nil}, {"/hooks/nope", "ok", "u5", nil}, {"/hooks/my-hook", "garbage", "u6", nil}, {"/hooks/my-hook", "norequest", "u7", nil}})
 	})
 	r.One(2, func(c *Case, _ *Rng) {
 		c.Desc = "corpus: colliding webhook ids (my.hook.ex.io / my-hook.ex.io / myHook) and an id with an empty path segment"
@@ -454,7 +670,56 @@ func runC14(r *Run) {
 		h1 := c14Hook{ID: 1, Bindings: []c14Binding{{"v", "my.hook.ex.io"}, {"m", "a//b"}}, Out: map[string]c14Outcome{"my.hook.ex.io": mk("h1", true), "a//b": mk("h1ab", true)}}
 		h2 := c14Hook{ID: 2, Bindings: []c14Binding{{"v", "my-hook.ex.io"}}, Out: map[string]c14Outcome{"my-hook.ex.io": mk("h2", false)}}
 		h3 := c14Hook{ID: 3, Bindings: []c14Binding{{"m", "myHook.ex.io"}}, Out: map[string]c14Outcome{"myHook.ex.io": mk("h3", true)}}
-		c14RunCase(r, c, []c14Hook{h1, h2, h3}, []c14Req{{"/hooks/my-hook-ex-io", "ok", "u1"}, {"/hooks/a//b", "ok", "u2"}, {"/hooks/a/b", "ok", "u3"}})
+		c14RunCase(r, c, []c14Hook{h1, h2, h3}, []c14Req{{"/hooks/my-hook-ex-io", "ok", "u1", nil}, {"/hooks/a//b", "ok", "u2", nil}, {"/hooks/a/b", "ok", "u3", nil}})
+	})
+
+	r.One(3, func(c *Case, _ *Rng) {
+		c.Desc = "corpus: the hook exits 0 with allowed=true, but an object patch / metric operation of the run cannot be applied (the hook task fails)"
+		mk := func(side string, allow bool) c14Outcome {
+			k := "d"
+			if allow {
+				k = "a"
+			}
+			return c14Outcome{Kind: k, Msg: "from the hook", Side: side, Content: fmt.Sprintf(`{"allowed":%v,"message":"from the hook"}`, allow)}
+		}
+		h := c14Hook{ID: 1, Bindings: []c14Binding{{"v", "gate.example.com"}, {"m", "mutGate"}}, Out: map[string]c14Outcome{
+			"gate.example.com": mk("", true), "mutGate": mk("bad.mo", true)}}
+		var reqs []c14Req
+		for i, o := range []c14Outcome{mk("bad.po", true), mk("bad.mo", true), mk("bad.pg", true), mk("bad.ms", true), mk("ok.mv", true),
+			mk("bad.mo", false), mk("ok.mv", false), {Kind: "e", Side: "bad.po"}, {Kind: "e", Side: "ok.mv"}} {
+			o := o
+			reqs = append(reqs, c14Req{"/hooks/gate-example-com", "ok", fmt.Sprintf("side-%d", i), &o})
+		}
+		reqs = append(reqs, c14Req{"/hooks/mut-gate", "ok", "side-m", nil}, c14Req{"/hooks/gate-example-com", "ok", "side-plain", nil})
+		c14RunCase(r, c, []c14Hook{h}, reqs)
+	})
+	r.One(4, func(c *Case, _ *Rng) {
+		c.Desc = "corpus: two overlapping requests to one hook: A writes a denial and keeps running, B writes allowed=true, A exits first"
+		deny := c14Outcome{Kind: "d", Msg: "denied for A", Content: `{"allowed":false,"message":"denied for A"}`}
+		allow := c14Outcome{Kind: "a", Warns: []string{"for B"}, Content: `{"allowed":true,"warnings":["for B"]}`}
+		h := c14Hook{ID: 1, Bindings: []c14Binding{{"v", "gate.example.com"}}, Out: map[string]c14Outcome{"gate.example.com": {Kind: "e"}}}
+		p := "/hooks/gate-example-com"
+		c14RunSteps(r, c, []c14Hook{h}, []c14Step{
+			{Reqs: []c14Req{{p, "ok", "ov-A", &deny}, {p, "ok", "ov-B", &allow}}, Sched: []string{"s1", "w1", "s2", "w2", "x1", "x2"}},
+			{Reqs: []c14Req{{p, "ok", "ov-C", &deny}, {p, "ok", "ov-D", &allow}}, Sched: []string{"s1", "s2", "w1", "w2", "x1", "x2"}},
+			{Reqs: []c14Req{{p, "ok", "ov-E", &allow}, {p, "ok", "ov-F", &deny}}, Sched: []string{"s1", "w1", "s2", "x1", "w2", "x2"}},
+			{Reqs: []c14Req{{p, "ok", "ov-G", &allow}}},
+		})
+	})
+	r.One(5, func(c *Case, _ *Rng) {
+		c.Desc = "corpus: three overlapping requests over two hooks and an unknown path; one run exits 1, one leaves the file empty"
+		deny := c14Outcome{Kind: "d", Msg: "no", Content: `{"allowed":false,"message":"no"}`}
+		allow := c14Outcome{Kind: "a", Content: `{"allowed":true}`}
+		allow1 := c14Outcome{Exit: 1, Kind: "a", Content: `{"allowed":true}`}
+		empty := c14Outcome{Kind: "e"}
+		h1 := c14Hook{ID: 1, Bindings: []c14Binding{{"v", "gate.example.com"}, {"m", "mutGate"}}, Out: map[string]c14Outcome{"gate.example.com": deny, "mutGate": deny}}
+		h2 := c14Hook{ID: 2, Bindings: []c14Binding{{"v", "other.example.com"}}, Out: map[string]c14Outcome{"other.example.com": deny}}
+		c14RunSteps(r, c, []c14Hook{h1, h2}, []c14Step{
+			{Reqs: []c14Req{{"/hooks/gate-example-com", "ok", "ov3-A", &empty}, {"/hooks/mut-gate", "ok", "ov3-B", &allow}, {"/hooks/other-example-com", "ok", "ov3-C", &deny}},
+				Sched: []string{"s1", "s2", "s3", "w2", "w3", "w1", "x1", "x3", "x2"}},
+			{Reqs: []c14Req{{"/hooks/gate-example-com", "ok", "ov3-D", &allow1}, {"/hooks/nope", "ok", "ov3-E", &allow}, {"/hooks/gate-example-com", "ok", "ov3-F", &deny}},
+				Sched: []string{"s1", "w1", "s2", "s3", "w3", "w2", "x2", "x1", "x3"}},
+		})
 	})
 
 	// ---- the complete outcome table: every response-file content class x exit code x binding kind
@@ -492,14 +757,41 @@ func runC14(r *Run) {
 		h := c14Hook{ID: 1, Bindings: []c14Binding{{kind, name}}, Out: map[string]c14Outcome{name: o}}
 		c.Desc = fmt.Sprintf("table: exit %d, %s binding, response file %q", o.Exit, kind, o.Content)
 		c14RunCase(r, c, []c14Hook{h}, []c14Req{
-			{"/hooks/table-example-com", "ok", fmt.Sprintf("t-%d-a", k)},
-			{"/hooks/table-example-com/", "ok", fmt.Sprintf("t-%d-b", k)},
-			{"/hooks/table.example.com", "ok", fmt.Sprintf("t-%d-c", k)},
-			{"/hooks/table-example-com", "garbage", fmt.Sprintf("t-%d-d", k)}})
+			{"/hooks/table-example-com", "ok", fmt.Sprintf("t-%d-a", k), nil},
+			{"/hooks/table-example-com/", "ok", fmt.Sprintf("t-%d-b", k), nil},
+			{"/hooks/table.example.com", "ok", fmt.Sprintf("t-%d-c", k), nil},
+			{"/hooks/table-example-com", "garbage", fmt.Sprintf("t-%d-d", k), nil}})
 		c.Note("case:outcome-table")
 	})
 	r.Exhaust = true
 	r.Extra["exhaustive_scope"] = fmt.Sprintf("the complete table of %d response-file contents (every content class) x exit {0,1} x {validating, mutating} binding, each asked on the registered path, with a trailing slash, on a non-registered spelling and with a garbage body", len(table))
+
+	// ---- the other output files of a run: every class x response-file class x exit code x binding kind
+	sideTable := []c14Outcome{
+		{Kind: "e"}, {Kind: "g", Content: "this is not json"},
+		{Kind: "a", Content: `{"allowed": true}`},
+		{Kind: "a", Warns: []string{"w 1"}, Patch: pt, Content: `{"allowed": true, "warnings": ["w 1"], "patch": "` + pt64 + `"}`},
+		{Kind: "d", Msg: "no", Content: `{"allowed": false, "message": "no"}`},
+		{Kind: "u", Content: `{"allowed": true, "unknownField": [1, 2]}`},
+	}
+	r.Cases(400, len(c14Sides)*len(sideTable)*len(exits)*len(kinds), 0, func(c *Case, _ *Rng) {
+		k := c.Idx - 400
+		o := sideTable[k%len(sideTable)]
+		k /= len(sideTable)
+		o.Side = c14Sides[k%len(c14Sides)]
+		k /= len(c14Sides)
+		o.Exit = exits[k%len(exits)]
+		kind := kinds[k/len(exits)]
+		name := "table.example.com"
+		h := c14Hook{ID: 1, Bindings: []c14Binding{{kind, name}}, Out: map[string]c14Outcome{name: o}}
+		c.Desc = fmt.Sprintf("side table: exit %d, %s binding, response file %q, other output files %s", o.Exit, kind, o.Content, o.Side)
+		c14RunCase(r, c, []c14Hook{h}, []c14Req{
+			{"/hooks/table-example-com", "ok", fmt.Sprintf("s-%d-a", c.Idx), nil},
+			{"/hooks/table-example-com/", "ok", fmt.Sprintf("s-%d-b", c.Idx), nil}})
+		c.Note("case:side-table")
+		c.Note("outcome:others=" + o.Side)
+	})
+	r.Extra["exhaustive_side_table"] = fmt.Sprintf("%d classes of other output files (valid metric operation, metrics file not JSON, metric operation that does not validate, unknown object patch operation, unparsable object patch file) x %d response-file classes x exit {0,1} x {validating, mutating}", len(c14Sides), len(sideTable))
 
 	if r.Thorough() {
 		// every pair of single-binding hooks over a pool of names that collide in several ways
@@ -520,9 +812,9 @@ func runC14(r *Run) {
 			h2 := c14Hook{ID: 2, Bindings: []c14Binding{b2}, Out: map[string]c14Outcome{b2.Name: mk("h2", false)}}
 			c.Desc = fmt.Sprintf("pairs: hook 1 %s %q, hook 2 %s %q", b1.Kind, b1.Name, b2.Kind, b2.Name)
 			c14RunCase(r, c, []c14Hook{h1, h2}, []c14Req{
-				{c14RegisteredPath(b1.Name), "ok", fmt.Sprintf("p-%d-1", k)},
-				{c14RegisteredPath(b2.Name), "ok", fmt.Sprintf("p-%d-2", k)},
-				{"/hooks/a/b", "ok", fmt.Sprintf("p-%d-3", k)}})
+				{c14RegisteredPath(b1.Name), "ok", fmt.Sprintf("p-%d-1", k), nil},
+				{c14RegisteredPath(b2.Name), "ok", fmt.Sprintf("p-%d-2", k), nil},
+				{"/hooks/a/b", "ok", fmt.Sprintf("p-%d-3", k), nil}})
 			c.Note("case:pairs")
 		})
 		r.Extra["exhaustive_pairs"] = fmt.Sprintf("all %d ordered pairs of single-binding hooks over %d names/kinds that collide after SafeURLString in several ways", len(pool)*len(pool), len(pool))
@@ -570,8 +862,11 @@ func runC14(r *Run) {
 				}
 				h.Bindings = append(h.Bindings, b)
 				if _, ok := h.Out[b.Name]; !ok {
-					h.Out[b.Name] = c14GenOutcome(rng, fmt.Sprintf("h%d.%d", id, i))
+					h.Out[b.Name] = c14GenOutcomeSide(rng, fmt.Sprintf("h%d.%d", id, i))
 					c.Note("outcome:file=" + h.Out[b.Name].Kind)
+					if h.Out[b.Name].Side != "" {
+						c.Note("outcome:others=" + h.Out[b.Name].Side)
+					}
 					if h.Out[b.Name].Exit != 0 {
 						c.Note("outcome:exit!=0")
 					}
@@ -600,9 +895,82 @@ func runC14(r *Run) {
 			} else if k < 13 {
 				body = "norequest"
 			}
-			reqs = append(reqs, c14Req{p, body, fmt.Sprintf("uid-%d-%d", c.Idx, i)})
+			reqs = append(reqs, c14Req{Path: p, Body: body, UID: fmt.Sprintf("uid-%d-%d", c.Idx, i)})
 		}
 		c14RunCase(r, c, hooks, reqs)
 		c.Note(fmt.Sprintf("case:hooks=%d", len(hooks)))
+	})
+
+	// ---- overlapping requests
+	r.Cases(10000, r.N(150, 1500), 0, func(c *Case, rng *Rng) {
+		names := []c14Binding{{"v", "gate.example.com"}, {"v", "other.example.com"}, {"m", "mutGate"}, {"m", "hooks/nextHook"}, {"v", "x.y.z"}, {"m", "UPPER"}}
+		rng.Shuffle(len(names), func(i, j int) { names[i], names[j] = names[j], names[i] })
+		nh := rng.Range(1, 2)
+		var hooks []c14Hook
+		var paths []string
+		k := 0
+		for id := 1; id <= nh; id++ {
+			h := c14Hook{ID: id, Out: map[string]c14Outcome{}}
+			for i, nb := 0, rng.Range(1, 2); i < nb; i++ {
+				b := names[k]
+				k++
+				h.Bindings = append(h.Bindings, b)
+				h.Out[b.Name] = c14GenOutcome(rng, fmt.Sprintf("h%d.%d", id, i))
+				paths = append(paths, c14RegisteredPath(b.Name))
+			}
+			hooks = append(hooks, h)
+		}
+		var steps []c14Step
+		u := 0
+		for s, ns := 0, rng.Range(1, 2); s < ns; s++ {
+			st := c14Step{}
+			nq := 2
+			if rng.Chance(30) {
+				nq = 3
+			}
+			target := PickOne(rng, paths)
+			for i := 0; i < nq; i++ {
+				p := target // mostly: all to the same hook and binding
+				if rng.Chance(30) {
+					p = PickOne(rng, paths)
+				}
+				if rng.Chance(5) {
+					p = PickOne(rng, []string{"/hooks/nope", "/other/" + strings.TrimPrefix(p, "/hooks/"), p + "/"})
+				}
+				var o c14Outcome
+				switch rng.Intn(10) {
+				case 0, 1, 2, 3:
+					o = c14Outcome{Kind: "a", Content: `{"allowed":true}`}
+					if rng.Bool() {
+						o.Warns = []string{fmt.Sprintf("warn for %d", u)}
+						o.Content = fmt.Sprintf(`{"allowed":true,"warnings":["warn for %d"]}`, u)
+					}
+				case 4, 5, 6:
+					o = c14Outcome{Kind: "d", Msg: fmt.Sprintf("denied for %d", u), Content: fmt.Sprintf(`{"allowed":false,"message":"denied for %d"}`, u)}
+				default:
+					o = c14GenOutcomeSide(rng, fmt.Sprintf("q%d", u))
+				}
+				st.Reqs = append(st.Reqs, c14Req{Path: p, Body: "ok", UID: fmt.Sprintf("ov-%d-%d", c.Idx, u), Out: &o})
+				u++
+			}
+			st.Sched = c14RandSched(rng, nq)
+			steps = append(steps, st)
+			if rng.Chance(50) {
+				// a plain request afterwards: the files of the overlapping runs are gone
+				steps = append(steps, c14Step{Reqs: []c14Req{{Path: PickOne(rng, paths), Body: "ok", UID: fmt.Sprintf("ov-%d-%d", c.Idx, u)}}})
+				u++
+			}
+		}
+		var ds []string
+		for _, st := range steps {
+			if len(st.Sched) > 0 {
+				ds = append(ds, fmt.Sprintf("%d requests in flight, order %s", len(st.Reqs), strings.Join(st.Sched, ",")))
+			} else {
+				ds = append(ds, "1 plain request")
+			}
+		}
+		c.Desc = fmt.Sprintf("overlap: %d hooks; %s", len(hooks), strings.Join(ds, "; "))
+		c14RunSteps(r, c, hooks, steps)
+		c.Note("case:overlap")
 	})
 }
